@@ -16,9 +16,57 @@ pub struct C05Case {
 }
 
 pub fn decode(src: &mut Source) -> Box<dyn Case> {
-    let mut w = gen_world(src, WorldOpts { dup_ids: false, max_recs: 12, queries: 3, ..WorldOpts::highlight() });
+    let mut w = if src.chance(1, 4) {
+        crowded_world(src)
+    } else {
+        gen_world(src, WorldOpts { dup_ids: false, max_recs: 12, queries: 3, ..WorldOpts::highlight() })
+    };
     w.markers = (SL.to_string(), SR.to_string());
     Box::new(C05Case { w })
+}
+
+/// many records over a tiny vocabulary and a small limit, queried several times in a row: the
+/// candidate cap (10 x limit) is crossed and whatever one query leaves behind meets the next
+fn crowded_world(src: &mut Source) -> World {
+    let lang = gen_lang(src);
+    let plain = plain_letters(lang);
+    let k = src.range(3, 7);
+    let nv = src.range(2, 5);
+    let vocab: Vec<String> = (0..nv).map(|_| (0..src.range(2, 6)).map(|_| plain[src.below(k)]).collect()).collect();
+    let limit = src.range(1, 3);
+    let nrec = 10 * limit + src.range(1, 25);
+    let recs: Vec<Rec> = (0..nrec)
+        .map(|i| {
+            let nw = src.range(1, 3);
+            let t = (0..nw).map(|_| src.pick(&vocab).clone()).collect::<Vec<_>>().join(" ");
+            (i + 1, t, src.below(50))
+        })
+        .collect();
+    let nq = src.range(3, 5);
+    let queries = (0..nq)
+        .map(|_| match src.below(4) {
+            0 => {
+                // one letter: touches many records
+                let w: Vec<char> = src.pick(&vocab).chars().collect();
+                w[..1].iter().collect()
+            }
+            1 => src.pick(&vocab).clone(),
+            2 => {
+                // a typo that may leave no gram in common with anything
+                let mut w: Vec<char> = src.pick(&vocab).chars().collect();
+                if w.len() >= 2 {
+                    w.swap(0, 1);
+                }
+                w.into_iter().collect()
+            }
+            _ => {
+                // letters outside the vocabulary's alphabet
+                let n = src.range(1, 4);
+                (0..n).map(|_| plain[k + src.below(plain.len() - k)]).collect()
+            }
+        })
+        .collect();
+    World { lang, recs, limit, queries, markers: (SL.to_string(), SR.to_string()) }
 }
 
 impl Case for C05Case {
@@ -48,6 +96,7 @@ impl Case for C05Case {
             let stretch = tq.words.last().unwrap().slice.1 - tq.words[0].slice.0;
             let hits = search(&store, q);
             ctx.label_if(hits.is_empty(), "query-without-hits");
+            ctx.label_if(w.recs.len() > 10 * w.limit && w.limit > 0, "store>10x-limit");
             for (id, out) in &hits {
                 ctx.count("hits", 1);
                 let ri = match w.recs.iter().position(|r| r.0 == *id) {
@@ -181,8 +230,8 @@ pub fn def() -> PropDef {
         rule: "space 'world': random worlds of 1-12 adversarial records, any limit, 3 queries each (related, near-miss, unrelated alphabets); only queries with a letter or digit are judged; gram sets recomputed with an own gram function from the public tokeniser; span lengths from a sentinel parse, counted conservatively across NUL padding. space 'prefix': one-word titles (expanding letters, inner apostrophes, edge separators, 0-2 other records, limit 10) x every prefix ending in a letter or digit. Non-trivial = a hit whose span is shorter than its word (world) / a probe with a proper prefix (prefix); distinct = distinct world / title",
         assumptions: &[],
         spaces: vec![
-            Space { name: "world", decode, plan: |t| Plan::Random(t.n(60_000, 2_000_000)) },
-            Space { name: "prefix", decode: decode_prefix, plan: |t| Plan::Random(t.n(40_000, 1_000_000)) },
+            Space { name: "world", decode, plan: |t| Plan::Random(t.n(160_000, 3_000_000)) },
+            Space { name: "prefix", decode: decode_prefix, plan: |t| Plan::Random(t.n(90_000, 1_500_000)) },
         ],
         differential: false,
     }
